@@ -123,7 +123,18 @@ func drawInit(t *rapid.T, max int, hs int, exact bool) (bool, []InitOp) {
 
 func drawSched(t *rapid.T, nprocs int) SchedSpec {
 	sp := SchedSpec{}
-	switch rapid.IntRange(0, 9).Draw(t, "schedK") {
+	switch rapid.IntRange(0, 12).Draw(t, "schedK") {
+	case 10, 11, 12:
+		sp.Kind = "segments"
+		n := rapid.IntRange(2, 8).Draw(t, "nsegs")
+		for i := 0; i < n; i++ {
+			p := rapid.IntRange(0, nprocs-1).Draw(t, "segProc")
+			steps := rapid.IntRange(0, 14).Draw(t, "segSteps")
+			if rapid.IntRange(0, 2).Draw(t, "segLong") == 0 {
+				steps = rapid.IntRange(15, 60).Draw(t, "segStepsLong")
+			}
+			sp.Segs = append(sp.Segs, [2]int{p, steps})
+		}
 	case 0, 1:
 		sp.Kind = "uniform"
 		n := rapid.IntRange(0, 250).Draw(t, "npicks")
